@@ -194,8 +194,10 @@ class World:
                     dt[k] = v
                 for t in TABLES:
                     ns = list(call['rows'][t])
-                    if not ns:
+                    if not ns and self.rng.random() < 0.6:
                         continue
+                    # no rows for this table: either not mentioned at all (above), or mentioned with an empty
+                    # selection - an append of nothing is not only spelled {} (statement: "appending nothing only warns")
                     key = t if self.rng.random() < 0.5 else t.lower()
                     arr = ta_rows(ns) if t == 'TA' else tb_rows(ns)
                     if self.rng.random() < 0.5:
@@ -203,6 +205,8 @@ class World:
                     else:
                         dt[key] = {c: [x.decode() if isinstance(x, bytes) else (x.tolist() if hasattr(x, 'tolist') else x)
                                        for x in arr[c]] for c in arr.dtype.names}
+                if self.rng.random() < 0.15:
+                    dt['symbols'] = {'struct': [], 'enum': []}      # ignored by append() by contract (a whole-object dict)
                 with warnings.catch_warnings(record=True) as w:
                     warnings.simplefilter('always')
                     self.par.append(dt)
